@@ -3,6 +3,14 @@
 import json, os
 V = '/verif'
 CHECKS = {
+ 'C07': dict(engine='M', technique='symbolic execution of the real UriBuilder MIR over symbolic parameter bytes with z3; percent-encode sets const-evaluated from the MIR of the AsciiSet chains; length-only abstraction for the build() unwrap',
+             text='For the template /a/{v1}/b/{v2}?k={q1}&j={q2} and all valid-UTF-8 values up to the bound (every byte value) the solver decides, on the real MIR of new/push_literal/push_*_parameter_raw/push_escaped/build, that every value goes through percent-encoding exactly once with a set that leaves only harmless bytes raw for its position, that the buffer is exactly literals+separators+encoded values, and that build() cannot panic on content; a second query over lengths only finds the >65534-byte panic (known finding). Counterexamples are replayed on the real build with a server-side decode oracle.',
+             note='Trusted: mirsym, models of percent_encoding (bytewise contract), http::Uri byte tables (quoted from http 1.x), bytes. Outside: longer values (bytewise map), macro/generator-side key and literal encoding.',
+             ref='§5 C07'),
+ 'C08': dict(engine='M', technique='symbolic execution of the real memoised log-safety recursion (conjure-codegen Context MIR) on symbolic type graphs with state merging; z3 compares with a greatest-fixpoint oracle for every evaluation order',
+             text='is_safe_arg is executed from MIR (with its closures, RefCell memo table and generated IR accessors) on a symbolic type graph (kinds, declared safeties, member types and reference targets symbolic) after symbolic earlier calls on the same Context; the solver decides equality with the greatest fixpoint of the log-safety rules on every path. Counterexamples are written out as IR and replayed on the real generator.',
+             note='Trusted: mirsym + models of HashMap index/RefCell/Option/iterator adaptors; bounds: 2 types x 2 members full alphabet, 3 types reduced alphabet (quick). Outside: larger graphs; quote! emission (covered by replay only).',
+             ref='§5 C08'),
  'C14': dict(engine='K', technique='bounded model checking of the compiled code (Kani/CBMC) over symbolic f64 triples at full bit width',
              text='Order/equality/hash laws (reflexive incl. NaN==NaN, eq<=>cmp==Equal, antisymmetry, transitivity, NaN greatest, equal=>identical hash stream) are decided by CBMC over all f64 bit patterns for DoubleOps on f64/Option/Vec(<=2) and for DoubleKey, on the real OrderedFloat code. Failures are replayed by concrete playback before being reported.',
              note='Trusted: Kani/CBMC translation; recording Hasher stands for every Hasher. Outside: containers > 2 elements; BTreeMap DoubleOps and educe-derived generated types (not yet covered, stated in evidence).',
